@@ -144,9 +144,9 @@ PROPS = {
         partial=['Props/MachineObjects.lean proves on the whole machine, for every program and every number of steps, that exception objects are never modified (exception_objects_immutable) and that the failures a scope has recorded are never removed or reordered (failures_append_only); prompt_abort (block ends in the time step of the first failure) is not proved: judge + correspondence only'],
     ),
     'C06': dict(
-        gen=['Scope'], props=['C06', 'MachineTasks'],
+        gen=['Scope'], props=['C06', 'MachineTasks', 'MachineCancel'],
         model=['Machine/Run', 'Machine/Step', 'Machine/Kernel', 'Judge/Judges', 'Prim/Task', 'Lemmas/PushBucket', 'Lemmas/KView', 'Lemmas/KStepFrames',
-               'Lemmas/KStep', 'Lemmas/QView', 'Lemmas/QStepFrames', 'Lemmas/QStep'], harness='c06',
+               'Lemmas/KStep', 'Lemmas/QView', 'Lemmas/QStepFrames', 'Lemmas/QStep', 'Lemmas/OView', 'Lemmas/OStepFrames', 'Lemmas/OStep'], harness='c06',
         trusted_base=KERNEL_TB + MACHINE_TB + ['coroutine skeletons pinned by regenerated templates (context.py, task.py, timing/notification/condition/flag, tracked.py)'],
         assumptions=['valid programs only: the generators avoid usage errors (past at= dates, negative delays, inverting a Moment)'],
         partial=['Props/MachineTasks.lean proves on the whole machine, for every program and every number of steps, that the phase of a task '
@@ -375,7 +375,7 @@ MANIFEST_TEXT = {
         technique='Lean 4 theorems (decision logic / per-primitive / frame level) + exact whole-machine differential traces + Lean trace judge',
         design_ref='6 (C05), 3, 4.B'),
     'C06': dict(
-        level='Lean 4 theorems: on the whole machine, for every program and every number of steps: World.status_forward (the phase created/running/finished of a task never decreases), finished_forever, task_identity (Props/MachineTasks.lean, by a per-function inventory of everything that writes the task and coroutine tables). Over an open lifecycle model (non-atomic close, swallowed cancellations), for every action sequence: status_forward, result_write_once/result_stable/result_stable_from_init (the outcome never changes once `done` is set), result_overwritten_while_closing (the F18 witness: the stored outcome does change before `done` is set), cancel_created_runs_nothing, cancel_finished_noop, cancel_suspended, done_has_result. The executable whole-machine model reproduces the real usim to the turn on scope trees and random valid programs with faults at every activation boundary; the Lean judge checks on every implementation trace: status samples monotone, awaiters agree, cancel-before-start runs nothing, cancel of a suspended task ends it in that time step, TaskCancelled carries a passed token.',
+        level='Task.cancel on the whole machine, for every world (Props/MachineCancel.lean): cancel_finished_noop, cancel_created_stores + precancelled_start_runs_nothing (the payload of a task cancelled before its first turn is dropped unrun), cancel_running_schedules (the CancelTask signal is queued for the tasks coroutine at the end of the running time step). Lean 4 theorems: on the whole machine, for every program and every number of steps: World.status_forward (the phase created/running/finished of a task never decreases), finished_forever, task_identity (Props/MachineTasks.lean, by a per-function inventory of everything that writes the task and coroutine tables). Over an open lifecycle model (non-atomic close, swallowed cancellations), for every action sequence: status_forward, result_write_once/result_stable/result_stable_from_init (the outcome never changes once `done` is set), result_overwritten_while_closing (the F18 witness: the stored outcome does change before `done` is set), cancel_created_runs_nothing, cancel_finished_noop, cancel_suspended, done_has_result. The executable whole-machine model reproduces the real usim to the turn on scope trees and random valid programs with faults at every activation boundary; the Lean judge checks on every implementation trace: status samples monotone, awaiters agree, cancel-before-start runs nothing, cancel of a suspended task ends it in that time step, TaskCancelled carries a passed token.',
         note='trusted: Lean kernel + standard axioms; templates/translator; whole-machine model tied by exact traces; the projection of machine steps onto lifecycle actions is not proved (tied by correspondence)',
         technique='Lean 4 theorems (decision logic / per-primitive / frame level) + exact whole-machine differential traces + Lean trace judge',
         design_ref='6 (C06), 3, 4.B'),
